@@ -7,7 +7,7 @@
      dec = A 0 (identity) | A 1 (ascii: fails on a byte >= 128) | L [L [B payload; L [A 0; B pkt]] | L [B payload; L [A 1]] ...]
    output = L rounds, round = L [A consumed; L events; held]   (held = get_buffer() / get_value())
      event = L [A 0; B pkt] | L [A 1; A errcode; B remaining] | L [A 2] (crash: RuntimeError)                       *)
-From EN Require Import Lib.Bytes Lib.Sx Frame.Framer Frame.ReadUntil Frame.BufReadUntil Frame.Serialize Stream.Consumer.
+From EN Require Import Lib.Bytes Lib.Sx Frame.Framer Frame.ReadUntil Frame.BufReadUntil Frame.Serialize Frame.Convert Stream.Consumer.
 
 Definition err_code (e : err) : Z :=
   match e with ELimit => 0 | EDecode => 1 | EConvert => 2 | EMissing => 3 | EExtra => 4 end%Z.
@@ -167,6 +167,14 @@ Definition run_ser (variant : Z) (cfg : sx) (data : bytes) : sx :=
   | _, _ => bad_input
   end.
 
+(* kinds 11 / 12: kinds 0 / 1 under a protocol with a converter whose create_from_dto_packet accepts exactly the
+   non-empty all-ASCII-digit packets (PacketConversionError otherwise) *)
+Definition digits_conv (q : option bytes) : option (option bytes) :=
+  match q with
+  | Some b => if (negb (Nat.eqb (length b) 0) && forallb (fun x => N.leb 48 x && N.leb x 57) b)%bool then Some q else None
+  | None => Some None
+  end.
+
 Definition run (i : sx) : sx :=
   match i with
   | L (A 10%Z :: A variant :: cfg :: B data :: _) => run_ser variant cfg data
@@ -179,6 +187,10 @@ Definition run (i : sx) : sx :=
           L (rc_all (ru_framer sep (Z.to_nat limit) (Z.eqb ke 1) dec) fuel (cinit _) chunks)
       | 1%Z, L [B sep; A limit; A ke; A hint] =>
           L (rb_all (bru_framer sep (Z.to_nat limit) (Z.eqb ke 1) dec) (Z.to_nat hint) fuel (bcinit _) chunks)
+      | 11%Z, L [B sep; A limit; A ke] =>
+          L (rc_all (conv_framer digits_conv (ru_framer sep (Z.to_nat limit) (Z.eqb ke 1) dec)) fuel (cinit _) chunks)
+      | 12%Z, L [B sep; A limit; A ke; A hint] =>
+          L (rb_all (conv_bframer digits_conv (bru_framer sep (Z.to_nat limit) (Z.eqb ke 1) dec)) (Z.to_nat hint) fuel (bcinit _) chunks)
       | 2%Z, L [A size] =>
           L (rc_all (rx_framer (Z.to_nat size) dec) fuel (cinit _) chunks)
       | 3%Z, L [A size; A hint] =>
